@@ -178,7 +178,16 @@ Definition c01_step (g : g01) (V : view) (ob : obs) : g01 * clauses :=
                     | Some (RPayDebt _ _, ms, _) => chk (key_eqb (nthk ms 2) k) k 1 0
                     | _ => [(k, 1, lamports (vget V k) - lamports a)] end
                   else []
-      | None => [] end) post in
+      | None => [] end) post ++
+    (* "the distribution's finalized debt root": once debt is final, root, count and total never change again *)
+    flat_map (fun '(k, a) =>
+      match dist_of (vget V k), dist_of a with
+      | Some (d0, _), Some (d1, _) =>
+          if d_debt_final d0 then
+            chk ((d_total_validators d0 =? d_total_validators d1) && (d_total_debt d0 =? d_total_debt d1) &&
+                 hash_eqb (d_debt_root d0) (d_debt_root d1) && d_debt_final d1) k 30 0
+          else []
+      | _, _ => [] end) post in
   let '(g', cs) :=
     match single_rd o with
     | Some (RPayDebt amount p, ms, _) =>
@@ -410,6 +419,15 @@ Definition c10_step (V : view) (ob : obs) : clauses :=
               chk (d_uncollectible tg1 =? d_uncollectible tg0 + amount) tk 9 amount ++
               chk (dp_written_off dp1 =? dp_written_off dp + amount) pk 10 amount
           | _, _ => [(tk, 11, 0)] end ++
+          (* the leaf is marked in BOTH bitmaps of the debt's own distribution; when the debt is absorbed by a later epoch, that
+             epoch's bitmaps are not touched *)
+          match dist_of (post_of V post dk) with
+          | Some (d1, t1) => chk (bit_of t1 (d_debt_start d1) (d_debt_end d1) idx && bit_of t1 (d_wo_start d1) (d_wo_end d1) idx) dk 16 idx
+          | None => [(dk, 16, idx)] end ++
+          (if key_eqb tk dk then [] else
+           match dist_of (vget V tk), dist_of (post_of V post tk) with
+           | Some (_, tt0), Some (_, tt1) => chk (list_eqb N.eqb tt0 tt1) tk 17 idx
+           | _, _ => [] end) ++
           (* touches no lamports and no tokens *)
           flat_map (fun '(k, a) => chk ((lamports a =? lamports (vget V k)) && (tok_amount a =? tok_amount (vget V k))) k 12 (lamports a)) post
       | _, _, _, _, _ => [(dk, 13, 0)] end
